@@ -57,6 +57,11 @@ theorem passthrough_route (isUpgrade : Bool) (path : Bytes) :
     Gen.connection_isPassthrough isUpgrade path = false ↔ (isUpgrade = true ∧ path = Gen.connection_StreamingPath) := by
   cases isUpgrade <;> simp [Gen.connection_isPassthrough]
 
+/-- serving side (regenerated from tcp-bridge-backend.go): no deadline bounds a whole pass-through request or
+    response, so exchanges of any duration are carried (a ReadTimeout/WriteTimeout or TimeoutHandler would cut
+    slow uploads and streamed responses short) -/
+theorem passthrough_unbounded_duration : Gen.bridgeBackend_exchangeDeadlines = [] := by decide
+
 -- non-vacuity
 example : hexEnc [0, 255, 16] = [48,48,102,102,49,48] := by decide
 example : reads [2, 5, 1] { buffered := [], inbox := [write [1,2,3], .other [9], write [], write [4]] } = [1,2,3,4] := by decide
